@@ -25,7 +25,19 @@ def det_table():
         rows.append(f"| `{r['name']}` | {', '.join(r.get('expected',[]))} | {needs} | {', '.join(r.get('caught_by',[])) or '**MISSED**'} | `{sig}` |")
     n=len(res); caught=sum(1 for r in res if r['status']=='CAUGHT')
     return '\n'.join(rows)+f'\n\n{caught} of {n} changes caught by the quick tier of the check(s) of the property they break.'
+def thorough_table():
+    p=f'{ROOT}/selftest/thorough_run.log'
+    if not os.path.exists(p): return '(no thorough pass logged yet)'
+    rows=['| property | exit | wall s | states | transitions | exhaustive / all sections |','|---|---|---|---|---|---|']
+    for line in open(p):
+        m=re.match(r'(C\d+) thorough exit=(\d+) wall=(\d+)s OK property=\S+ tier=thorough states=(\d+) transitions=(\d+) .*exhaustive_sections=(\d+)/(\d+)', line)
+        if m:
+            rows.append(f"| {m.group(1)} | {m.group(2)} | {m.group(3)} | {int(m.group(4)):,} | {int(m.group(5)):,} | {m.group(6)} / {m.group(7)} |")
+        elif line.strip():
+            rows.append(f"| {line.split()[0]} | see log | | | | |")
+    return '\n'.join(rows)
 s=open(f'{ROOT}/DESIGN.md').read()
+s=re.sub(r'<!-- BEGIN:THOROUGH -->.*?<!-- END:THOROUGH -->', '<!-- BEGIN:THOROUGH -->\n'+thorough_table()+'\n<!-- END:THOROUGH -->', s, flags=re.S)
 s=re.sub(r'<!-- BEGIN:COVERAGE -->.*?<!-- END:COVERAGE -->', '<!-- BEGIN:COVERAGE -->\n'+cov_table()+'\n<!-- END:COVERAGE -->', s, flags=re.S)
 s=re.sub(r'<!-- BEGIN:DETECTION -->.*?<!-- END:DETECTION -->', '<!-- BEGIN:DETECTION -->\n'+det_table()+'\n<!-- END:DETECTION -->', s, flags=re.S)
 open(f'{ROOT}/DESIGN.md','w').write(s)
